@@ -249,6 +249,19 @@ def build_ref(p, w):
         return w.refs[p[1]]
     if k == "lexpr":
         return R.LiteralExpr(dec(p[1]))          # harness only: the class has no operator syntax
+    if k == "pack":
+        # a plain Python container written in the expression, whose entries may be references:
+        # r['m'][r['i'], r['j']] (tuple key), r['l'][r['i']:2] (slice key), f((r['a'], 1)), f(k=[r['a']])
+        xs = [build_ref(x, w) for x in p[2]]
+        if p[1] == "tuple":
+            return tuple(xs)
+        if p[1] == "list":
+            return xs
+        if p[1] == "slice":
+            return slice(*xs)
+        if p[1] == "dict":
+            return {f"k{i}": x for i, x in enumerate(xs)}
+        raise ValueError(p)
     if k == "item":
         return build_ref(p[1], w)[build_ref(p[2], w)]
     if k == "attr":
@@ -802,6 +815,25 @@ def container_locations(w):
     return out
 
 
+def holds_ref(key):
+    if isinstance(key, R.BaseRef):
+        return True
+    if isinstance(key, (tuple, list)):
+        return any(holds_ref(k) for k in key)
+    if isinstance(key, slice):
+        return any(holds_ref(k) for k in (key.start, key.stop, key.step))
+    return False
+
+
+def aliased_by_computed_key(ref, ds, obs):
+    """the location is a member of an owner that the expression reads through a reported
+    COMPUTED key (owner[<expression>]): which member that is depends on the key's value"""
+    if not isinstance(ref, (R.ItemRef, R.AttrRef)):
+        return False
+    own = obs.term(ref._owner)
+    return any(isinstance(d, (R.ItemRef, R.AttrRef)) and holds_ref(d._key) and obs.term(d._owner) == own for d in ds)
+
+
 def run_c05(inp):
     obs = Observer(inp["classes"], inp["fns"])
     cls_of = class_by_id(inp["classes"]); fn_of = fn_objects(inp["fns"])
@@ -844,7 +876,10 @@ def run_c05(inp):
                 if extra:
                     problems.append("reported but not occurring: " + ", ".join(extra))
         # oracle 2 (semantic clause, constant keys): perturb every container location through its reference
-        if case.get("perturb") and isinstance(e, R.BaseRef) and not problems:
+        base = outcome(e._get_value) if case.get("perturb") and isinstance(e, R.BaseRef) else None
+        rec["evaluates"] = None if base is None else base[0] == "ok"
+        # (an expression that cannot be evaluated reads nothing successfully: no semantic obligation)
+        if case.get("perturb") and isinstance(e, R.BaseRef) and not problems and base[0] == "ok":
             try:
                 tgt = w.refs[case["out"][0]][case["out"][1]]
                 w.m.set_value(tgt, e)
@@ -860,7 +895,7 @@ def run_c05(inp):
                     if after[0] == "ok" and not same_outcome(after, held):
                         problems.append(f"after {S(ref)} changed through set_value, {S(tgt)} holds {show(held)} but its expression evaluates to {show(after)}")
                         break
-                    if changed and ds is not None and json.dumps(obs.term(ref)) not in kd:
+                    if changed and ds is not None and json.dumps(obs.term(ref)) not in kd and not aliased_by_computed_key(ref, ds, obs):
                         problems.append(f"changing {S(ref)} changes the value ({show(before)} -> {show(after)}) but it is not a reported dependency")
                         break
                     w.m.set_value(ref, val)
